@@ -486,49 +486,6 @@ Proof.
     vm_compute in X. discriminate X.
 Qed.
 
-Definition foo_elem := {| p_id := "SPDXRef-Package-foo-1.0-r0"; p_name := "foo"; p_version := "1.0-r0"; p_sums := [] |}.
-Definition bar_elem := {| p_id := "SPDXRef-Package-bar-2.0-r1"; p_name := "bar"; p_version := "2.0-r1"; p_sums := [] |}.
-Definition foo_sbom : doc :=
-  {| d_pkgs := [foo_elem; bar_elem];
-     d_rels := [{| r_elem := p_id foo_elem; r_type := "DEPENDS_ON"; r_related := p_id bar_elem |}];
-     d_desc := [p_id foo_elem] |}.
-Definition bar_sbom : doc := {| d_pkgs := [bar_elem]; d_rels := []; d_desc := [p_id bar_elem] |}.
-Definition replace_self_witness : gen_in :=
-  {| g_image := "sha256:ab"; g_layers := [("sha256", "cd")]; g_osver := "1"; g_vcs := "";
-     g_apks := [ {| a_name := "foo"; a_version := "1.0-r0"; a_sum := [1]%N |};
-                 {| a_name := "bar"; a_version := "2.0-r1"; a_sum := [2]%N |} ];
-     g_fs := [("foo-1.0-r0.spdx.json", FDoc foo_sbom); ("bar-2.0-r1.spdx.json", FDoc bar_sbom)] |}.
-
-(* both embedded documents are themselves well-formed, each apk has exactly one
-   target (so the map order is immaterial), and yet the result has a dangling
-   reference: bar's element arrived with foo's SBOM, so when bar is processed
-   the first package named bar IS the imported element and
-   replacePackage(id, id) deletes it *)
-Lemma replace_self_refuted : exists g d,
-  (forall k e, In (k, FDoc e) (g_fs g) -> RefsResolve e /\ IdsUnique e /\ Forall ValidId (ids e)) /\
-  (forall a, In a (g_apks g) -> forall e, locate (g_fs g) (candidates (a_name a) (a_version a)) = Some (FDoc e) ->
-     List.length (targets (a_name a) e) = 1%nat) /\
-  generate (fun l => l) g = Ok d /\ ~ RefsResolve d /\
-  In (p_id bar_elem) (List.map r_related (d_rels d)) /\ ~ In (p_id bar_elem) (ids d).
-Proof.
-  exists replace_self_witness. eexists. split; [|split; [|split; [vm_compute; reflexivity|]]].
-  - intros k e [E|[E|[]]]; inversion E; subst; (split; [apply refs_resolve_b_iff; vm_compute; reflexivity|]);
-      (split; [apply nodup_b_iff; vm_compute; reflexivity|]);
-      repeat constructor; apply valid_id_b_iff; vm_compute; reflexivity.
-  - intros a [<-|[<-|[]]] e H; vm_compute in H; inversion H; subst; reflexivity.
-  - split; [|split].
-    + intro R. apply refs_resolve_b_iff in R. vm_compute in R. discriminate R.
-    + apply mem_In. vm_compute. reflexivity.
-    + apply mem_false. vm_compute. reflexivity.
-Qed.
-
-Lemma generate_plain_digests perm g d : NoEmbedded g -> generate perm g = Ok d ->
-  (g_image g <> "" -> DescribesImage (g_image g) d) /\
-  (NoDup (ids (base_doc g)) -> NamesLayers (g_layers g) d).
-Proof.
-  intros NE H. split; [intro I; exact (generate_plain_image perm g d NE I H) | intro N; exact (generate_plain_layers perm g d NE N H)].
-Qed.
-
 (* ---- embedded SBOMs: one apk's step keeps references resolved (inside the envelope) ------------------ *)
 Definition closed (rels : list rel) (td : list string) : Prop :=
   forall r, In r rels -> String.prefix file_pfx (r_related r) = false -> In (r_elem r) td -> In (r_related r) td.
@@ -633,41 +590,128 @@ Proof.
   - cbn [d_desc]. clear. induction (d_desc d) as [|y t IH]; simpl; [reflexivity|]. destruct (String.eqb y o); simpl; congruence.
 Qed.
 
-Lemma find_app_l {A} (f : A -> bool) l1 l2 : (exists x, In x l1 /\ f x = true) ->
-  exists q, find f (l1 ++ l2) = Some q /\ In q l1.
-Proof.
-  induction l1 as [|a l1 IH]; intros (x & Hx & Fx); [destruct Hx|]. simpl.
-  destruct (f a) eqn:E; [exists a; split; [reflexivity | left; reflexivity]|].
-  destruct Hx as [->|Hx]; [congruence|]. destruct IH as (q & Hq & Iq); [eauto|]. exists q. split; [exact Hq | right; exact Iq].
-Qed.
 
-(* one apk with an embedded SBOM, inside the envelope: at most one target, which is
-   not yet an id of the document, and the document already holds an element with
-   the apk's name (Generate has just appended the apk's own element) *)
+(* one apk with an embedded SBOM that yields at most one target: whatever the
+   embedded relationship graph and whatever the document already holds *)
 Lemma process_internal_refs perm fs d pname pversion e d' :
   RefsResolve d -> (List.length (d_desc d) <= 1)%nat ->
   locate fs (candidates pname pversion) = Some (FDoc e) ->
   (List.length (targets pname e) <= 1)%nat ->
   (forall l, Permutation (perm l) l) ->
-  (forall t, In t (targets pname e) -> ~ In t (ids d)) ->
-  (exists p, In p (d_pkgs d) /\ p_name p = pname) ->
   process_internal perm fs d pname pversion = Ok d' ->
   RefsResolve d' /\ List.length (d_desc d') = List.length (d_desc d).
 Proof.
-  intros R L Loc T P Fresh Own H. unfold process_internal in H. rewrite Loc in H.
+  intros R L Loc T P H. unfold process_internal in H. rewrite Loc in H.
   apply rbind_ok in H. destruct H as (d1 & Hc & H). inversion H; subst; clear H.
   destruct (copy_elements_refs _ _ _ _ R Hc) as (R1 & D1 & I1 & ps & P1).
   specialize (P (targets pname e)).
   destruct (targets pname e) as [|t [|t2 tl]] eqn:ET; [| |simpl in T; lia].
   - apply Permutation_sym, Permutation_nil in P. rewrite P. simpl. rewrite D1. tauto.
   - apply Permutation_sym, Permutation_length_1_inv in P. rewrite P. simpl. unfold replace_step.
-    destruct Own as (p & Hp & Np).
-    destruct (find_app_l (fun q => String.eqb (p_name q) pname) (d_pkgs d) ps) as (q & Fq & Iq).
-    { exists p. split; [exact Hp | apply String.eqb_eq, Np]. }
-    rewrite P1, Fq.
+    destruct (find _ (d_pkgs d1)) as [q|] eqn:Fq; [|rewrite D1; tauto].
+    apply find_some in Fq. destruct Fq as [_ Fq]. apply andb_true_iff in Fq. destruct Fq as [_ Fq].
+    apply negb_true_iff, String.eqb_neq in Fq.
     destruct (replace_package_refs d1 (p_id q) t R1) as [R2 L2].
     + apply I1. left; reflexivity.
-    + intro E. apply (Fresh t (or_introl eq_refl)). rewrite E. apply in_map, Iq.
+    + congruence.
     + rewrite D1. exact L.
     + split; [exact R2 | rewrite L2, D1; reflexivity].
+Qed.
+
+(* ---- lifting the step to Generate ------------------------------------------------------------------------ *)
+Lemma add_own_refs d p : RefsResolve d ->
+  RefsResolve {| d_pkgs := d_pkgs d ++ [p]; d_rels := d_rels d; d_desc := d_desc d |}.
+Proof.
+  intros [A B]. split; unfold ids; cbn [d_pkgs d_rels d_desc]; rewrite map_app.
+  - intros r Hr. destruct (A r Hr). rewrite !in_app_iff. tauto.
+  - intros x Hx. rewrite in_app_iff. left. apply B, Hx.
+Qed.
+
+Lemma process_apks_refs perm fs nonce : (forall l, Permutation (perm l) l) ->
+  forall apks d d', RefsResolve d -> (List.length (d_desc d) <= 1)%nat ->
+  (forall a, In a apks -> forall e, locate fs (candidates (a_name a) (a_version a)) = Some (FDoc e) ->
+     (List.length (targets (a_name a) e) <= 1)%nat) ->
+  process_apks perm fs nonce apks d = Ok d' -> RefsResolve d'.
+Proof.
+  intros P. induction apks as [|a apks IH]; intros d d' R L S H; simpl in H.
+  - inversion H; subst; exact R.
+  - apply rbind_ok in H. destruct H as (d2 & H2 & H).
+    pose proof (add_own_refs d (apk_package nonce a) R) as R1.
+    assert (RefsResolve d2 /\ List.length (d_desc d2) = List.length (d_desc d)) as [R2 L2].
+    { destruct (locate fs (candidates (a_name a) (a_version a))) as [[e| |]|] eqn:Loc.
+      - apply (process_internal_refs perm fs _ (a_name a) (a_version a) e d2 R1 L Loc (S a (or_introl eq_refl) e Loc) P H2).
+      - unfold process_internal in H2. rewrite Loc in H2. inversion H2; subst. split; [exact R1 | reflexivity].
+      - unfold process_internal in H2. rewrite Loc in H2. discriminate H2.
+      - unfold process_internal in H2. rewrite Loc in H2. inversion H2; subst. split; [exact R1 | reflexivity]. }
+    apply (IH d2 d' R2); [lia | intros; eapply S; [right; eassumption | eassumption] | exact H].
+Qed.
+
+Lemma base_doc_desc g : (List.length (d_desc (base_doc g)) <= 1)%nat.
+Proof.
+  unfold base_doc. destruct (String.eqb (g_image g) ""); simpl.
+  - destruct (rev _); simpl; lia.
+  - destruct (String.eqb (g_vcs g) ""); simpl; lia.
+Qed.
+
+Lemma generate_refs_single perm g d : (forall l, Permutation (perm l) l) -> SingleTarget g ->
+  generate perm g = Ok d -> RefsResolve d.
+Proof.
+  intros P S H. apply generate_inv in H. destruct H as (L & d0 & H0 & ->).
+  pose proof (process_apks_refs perm (g_fs g) (nonce_of g) P (g_apks g) (base_doc g) d0 (base_doc_refs g L) (base_doc_desc g) S H0) as R.
+  apply (refs_resolve_more_pkgs d0); [exact R|]. intros x Hx. apply dedup_pkgs_spec. split; [exact Hx | intros []].
+Qed.
+
+(* ---- what is left of the replace loop's defect: three described elements ----------------------------------- *)
+Definition foo_elem := {| p_id := "SPDXRef-Package-foo-1.0-r0"; p_name := "foo"; p_version := "1.0-r0"; p_sums := [] |}.
+Definition bar_elem := {| p_id := "SPDXRef-Package-bar-2.0-r1"; p_name := "bar"; p_version := "2.0-r1"; p_sums := [] |}.
+Definition foo_sbom : doc :=
+  {| d_pkgs := [foo_elem; bar_elem];
+     d_rels := [{| r_elem := p_id foo_elem; r_type := "DEPENDS_ON"; r_related := p_id bar_elem |}];
+     d_desc := [p_id foo_elem] |}.
+Definition bar_sbom : doc := {| d_pkgs := [bar_elem]; d_rels := []; d_desc := [p_id bar_elem] |}.
+(* the replay of the defect repaired by 494ce81: bar's element arrives with foo's SBOM *)
+Definition replace_self_witness : gen_in :=
+  {| g_image := "sha256:ab"; g_layers := [("sha256", "cd")]; g_osver := "1"; g_vcs := "";
+     g_apks := [ {| a_name := "foo"; a_version := "1.0-r0"; a_sum := [1]%N |};
+                 {| a_name := "bar"; a_version := "2.0-r1"; a_sum := [2]%N |} ];
+     g_fs := [("foo-1.0-r0.spdx.json", FDoc foo_sbom); ("bar-2.0-r1.spdx.json", FDoc bar_sbom)] |}.
+
+Definition foo2 := {| p_id := "SPDXRef-Package-foo-alt"; p_name := "foo"; p_version := "1.0-r0"; p_sums := [] |}.
+Definition foo3 := {| p_id := "SPDXRef-Package-foo-third"; p_name := "foo"; p_version := "1.0-r0"; p_sums := [] |}.
+Definition src_elem := {| p_id := "SPDXRef-Package-src"; p_name := "src"; p_version := "1"; p_sums := [] |}.
+Definition three_sbom : doc :=
+  {| d_pkgs := [foo_elem; foo2; foo3; src_elem];
+     d_rels := [{| r_elem := p_id foo_elem; r_type := "GENERATED_FROM"; r_related := p_id src_elem |}];
+     d_desc := [p_id foo_elem; p_id foo2; p_id foo3] |}.
+Definition three_target_witness : gen_in :=
+  {| g_image := "sha256:ab"; g_layers := [("sha256", "cd")]; g_osver := "1"; g_vcs := "";
+     g_apks := [ {| a_name := "foo"; a_version := "1.0-r0"; a_sum := [1]%N |} ];
+     g_fs := [("foo-1.0-r0.spdx.json", FDoc three_sbom)] |}.
+
+(* a well-formed embedded document that describes three elements carrying the
+   apk's name; when Go visits the targets in the order third, second, first, the
+   last iteration renames the references to an element the second iteration
+   removed *)
+Lemma replace_loop_refuted : exists g d,
+  (forall k e, In (k, FDoc e) (g_fs g) -> RefsResolve e /\ IdsUnique e /\ Forall ValidId (ids e)) /\
+  Permutation (@rev string (targets "foo" three_sbom)) (targets "foo" three_sbom) /\
+  generate (@rev string) g = Ok d /\ ~ RefsResolve d.
+Proof.
+  exists three_target_witness. eexists. split; [|split; [|split; [vm_compute; reflexivity|]]].
+  - intros k e [E|[]]; inversion E; subst; (split; [apply refs_resolve_b_iff; vm_compute; reflexivity|]);
+      (split; [apply nodup_b_iff; vm_compute; reflexivity|]);
+      repeat constructor; apply valid_id_b_iff; vm_compute; reflexivity.
+  - apply Permutation_sym, Permutation_rev.
+  - intro R. apply refs_resolve_b_iff in R. vm_compute in R. discriminate R.
+Qed.
+
+(* the repaired defect stays repaired in the model *)
+Lemma replace_self_fixed : exists d, generate (fun l => l) replace_self_witness = Ok d /\ RefsResolve d.
+Proof. eexists. split; [vm_compute; reflexivity | apply refs_resolve_b_iff; vm_compute; reflexivity]. Qed.
+
+Lemma generate_plain_digests perm g d : NoEmbedded g -> generate perm g = Ok d ->
+  (g_image g <> "" -> DescribesImage (g_image g) d) /\
+  (NoDup (ids (base_doc g)) -> NamesLayers (g_layers g) d).
+Proof.
+  intros NE H. split; [intro I; exact (generate_plain_image perm g d NE I H) | intro N; exact (generate_plain_layers perm g d NE N H)].
 Qed.
